@@ -795,7 +795,12 @@ def cc2(F, R):
                 ((ln[0] == "binop" and ln[1] == "Add") or ln[1].endswith("::add"))
             parts = [strip_load(x) for x in (ln[2:4] if ln[0] == "binop" else ln[2])] if okl else []
             okl = okl and any(is_inline_len(p, left) for p in parts) and \
-                any(p[0] == "call" and p[1].endswith("::len") and strip_load(p[2][0]) == right for p in parts)
+                any(p[0] == "call" and p[1].endswith("::len") and
+                    (strip_load(p[2][0]) == right or
+                     # len of the right operand's byte view: `h.bytes().len()`
+                     (strip_load(p[2][0])[0] == "call" and strip_load(p[2][0])[1].split("::")[-1] == "bytes" and "Hex" in strip_load(p[2][0])[1] and
+                      strip_load(strip_load(p[2][0])[2][0]) == right))
+                    for p in parts)
             arr = strip_load(fs["0"])
             # the array starts as a copy of the left array and receives the right bytes at [l .. l + len(h)]
             cps = [a for a in raw if a.kind == "call" and a.name in ("copy_from_slice", "clone_from_slice") and a.body is b and b.dominates(a.site, site)]
